@@ -148,11 +148,11 @@ def write_replay(prop, phase, runner, v):
     payload = {'property': prop, 'phase': phase, 'runner': runner, 'case': v['case'], 'descriptor': v['desc'],
                'expected': v.get('expected'), 'observed': v.get('observed')}
     blob = json.dumps(payload, sort_keys=True, default=str, ensure_ascii=False)
-    sha = hashlib.sha256(blob.encode()).hexdigest()[:12]
+    sha = hashlib.sha256(blob.encode('utf-8', 'backslashreplace')).hexdigest()[:12]
     d = os.path.join(HERE, 'replays', prop)
     os.makedirs(d, exist_ok=True)
     path = os.path.join(d, sha + '.json')
-    with open(path, 'w', encoding='utf-8') as f:
+    with open(path, 'w', encoding='utf-8', errors='backslashreplace') as f:
         f.write(json.dumps(payload, indent=1, sort_keys=True, default=str, ensure_ascii=False))
     return path
 
@@ -197,6 +197,11 @@ def main(argv=None):
     ap.add_argument('--write-witness', action='store_true',
                     help='(maintenance) write the first case matching each listed finding to its witness file')
     a = ap.parse_args(argv)
+    for stream in (sys.stdout, sys.stderr):
+        try:
+            stream.reconfigure(errors='backslashreplace')  # cases may hold lone surrogates and other unencodable text
+        except Exception:  # noqa
+            pass
     prop = a.prop.upper()
     try:
         seed = int(os.environ.get('VERIF_SEED', '0') or 0)
@@ -282,7 +287,7 @@ def main(argv=None):
     }
     if not a.no_evidence:
         os.makedirs(os.path.join(HERE, 'evidence'), exist_ok=True)
-        with open(os.path.join(HERE, 'evidence', prop + '.json'), 'w', encoding='utf-8') as f:
+        with open(os.path.join(HERE, 'evidence', prop + '.json'), 'w', encoding='utf-8', errors='backslashreplace') as f:
             json.dump(ev, f, indent=1, sort_keys=True, default=str, ensure_ascii=False)
     print(f"{prop} tier={a.tier} cases={cov['states']} transitions={cov['transitions']} validated="
           f"{cov['traces_validated_against_impl']} nontrivial={cov['distinct_nontrivial']} outcomes={len(outcomes)} "
